@@ -62,6 +62,25 @@ Theorem C11_container :
   (forall e rest, sniff_codec the_facts e (stream_header_frame ++ rest) = Plain /\ sniff_codec the_facts e (B "Obj" ++ rest) = Plain).
 Proof. exact (container_facts the_facts eq_refl). Qed.
 
+(* second stage for record streams: the stream reader (RecordStreamReader.readheader) accepts content only when its first
+   19 bytes END with the magic -- for content of at least 19 bytes: exactly <any 6 bytes> ++ magic ++ rest.  So a source in
+   which find_adapter_for_stream merely FINDS the magic at another offset is refused by the reader (IOError), e.g. a text
+   file that starts with the magic line. *)
+Theorem C11_stream_header_exact :
+  (forall d, stream_header_ok the_facts d = ends_with RECORDSTREAM_MAGIC (firstn 19 d)) /\
+  (forall rest, stream_header_ok the_facts (stream_header_frame ++ rest) = true) /\
+  (forall d, 19 <= List.length d ->
+     (stream_header_ok the_facts d = true <->
+      exists pre rest, List.length pre + 13 = 19 /\ d = pre ++ RECORDSTREAM_MAGIC ++ rest)).
+Proof.
+  exact (conj (header_exact the_facts eq_refl) (conj (header_frame_accepted the_facts eq_refl) (header_framed the_facts eq_refl))).
+Qed.
+
+Example C11_near_miss_two_stage : forall rest,
+  sniff_container the_facts has_flags (RECORDSTREAM_MAGIC ++ [x00; x00; x00; x00; x00; x00] ++ rest) = Some (B "stream") /\
+  stream_header_ok the_facts (RECORDSTREAM_MAGIC ++ [x00; x00; x00; x00; x00; x00] ++ rest) = false.
+Proof. intros rest. split; reflexivity. Qed.
+
 (* open_path(path, "wb"): the extension decides the compressor, for every stem *)
 Theorem C11_writer_ext : forall (e : env) c stem x, In x (std_ext c) ->
   open_path_write the_facts e (stem ++ x) = if avail e c then OCodec c else ONotAvailable c.
